@@ -1,6 +1,7 @@
 package store
 
 import (
+	"github.com/oklog/ulid/v2"
 	"github.com/prometheus/prometheus/model/labels"
 
 	"github.com/thanos-io/thanos/pkg/block/metadata"
@@ -81,4 +82,63 @@ func VerifC15GetFor() {
 		verifAssert(sel, "covered-instant-selected")
 		verifReach("coverage-checked")
 	}
+}
+
+// VerifC15AddRemove: the layout is produced by a history of add and remove calls; blocks of one resolution
+// (so that the ordering add() establishes and remove() must keep is what getFor relies on).
+func VerifC15AddRemove() {
+	k := verifParam("K", 4)
+	s := newBucketBlockSet(labels.EmptyLabels())
+	n := verifIntRange("n", 2, k)
+	res := verifC15Res[verifIntRange("res", 0, 2)]
+	blocks := make([]*bucketBlock, n)
+	lim := int64(1) << 40
+	for i := 0; i < n; i++ {
+		mn := verifInt64(verifName("min", i))
+		mx := verifInt64(verifName("max", i))
+		verifAssume(mn < mx)
+		verifAssume(-lim <= mn)
+		verifAssume(mx <= lim)
+		b := &bucketBlock{meta: &metadata.Meta{}}
+		b.meta.ULID = ulid.ULID{15: byte(i + 1)}
+		b.meta.MinTime = mn
+		b.meta.MaxTime = mx
+		b.meta.Thanos.Downsample.Resolution = res
+		verifAssert(s.add(b) == nil, "add-ok")
+		blocks[i] = b
+	}
+	rm := verifIntRange("remove", 0, n-1)
+	s.remove(blocks[rm].meta.ULID)
+	mint := verifInt64("mint")
+	maxt := verifInt64("maxt")
+	verifAssume(mint <= maxt)
+	verifAssume(-lim <= mint)
+	verifAssume(maxt <= lim)
+	got := s.getFor(mint, maxt, res, nil)
+	for i := range got {
+		verifAssert(got[i] != blocks[rm], "removed-block-not-selected")
+		verifAssert(got[i].meta.MinTime <= maxt, "overlaps-range-hi")
+		verifAssert(got[i].meta.MaxTime > mint, "overlaps-range-lo")
+		for j := i + 1; j < len(got); j++ {
+			verifAssert(got[i] != got[j], "no-duplicate-block")
+		}
+	}
+	t := verifInt64("t")
+	verifAssume(mint <= t)
+	verifAssume(t <= maxt)
+	covered := false
+	sel := false
+	for i, b := range blocks {
+		if i != rm {
+			covered = verifAny(covered, verifAll(b.meta.MinTime <= t, t < b.meta.MaxTime))
+		}
+	}
+	for _, g := range got {
+		sel = verifAny(sel, verifAll(g.meta.MinTime <= t, t < g.meta.MaxTime))
+	}
+	verifAssert(verifImplies(covered, sel), "covered-instant-selected")
+	if len(got) > 1 {
+		verifReach("two-blocks-selected")
+	}
+	verifReach("end")
 }
